@@ -124,9 +124,16 @@ func vfMakeGraphS(sh vfShape) *vfGraph {
 		if g.tag[i] != "" {
 			s.Tags = []Tag{{Name: g.tag[i]}}
 		}
-		s.Args = []Arg{{DependsOnServices: vfOne(g.refS[i])}}
-		s.Calls = []Call{{Method: "M", Args: []Arg{{DependsOnTags: vfOne(g.refT[i])}}}}
-		s.Fields = []Field{{Name: "F", Value: Arg{DependsOnParams: vfOne(g.refP[i])}}}
+		// a slot that is not used leaves no argument behind (a service may have no arguments at all)
+		if g.refS[i] != "" {
+			s.Args = []Arg{{DependsOnServices: vfOne(g.refS[i])}}
+		}
+		if g.refT[i] != "" {
+			s.Calls = []Call{{Method: "M", Args: []Arg{{DependsOnTags: vfOne(g.refT[i])}}}}
+		}
+		if g.refP[i] != "" {
+			s.Fields = []Field{{Name: "F", Value: Arg{DependsOnParams: vfOne(g.refP[i])}}}
+		}
 		g.o.Services = append(g.o.Services, s)
 	}
 	for i, n := range g.par {
